@@ -50,7 +50,7 @@ def main():
     N = 1200 if quick else 8000
     rac.section("solve", "generated problems (linear / quadratic / sin / atan; 1-3 knobs, 1-4 targets; consistent, inconsistent, "
                 "rank-deficient; limits, weights, max_step, inactive knobs/targets) x n_steps_max in {0,1,3,20} x {plain, Broyden, "
-                "user action raising at its 1st..6th call, a knob enabled after row 0, a knob moved by a step and then disabled before a failing solve}; normal return => independently re-evaluated "
+                "user action raising at its 1st..6th call, a knob enabled after row 0, a knob moved by a step and then disabled before a failing solve, flags switched between two solves through the older entry points (enable_all_* / disable_all_* / *_vary(id) / *_targets(id) / assignment to .active)}; normal return => independently re-evaluated "
                 "active targets within tolerance; exception => knobs and flags of log row 0; non-trivial = at least one "
                 "solver step was attempted", f"{N} problems (seeded)", exhaustive=False)
     counts = {}
@@ -59,7 +59,7 @@ def main():
             break
         prob = G.rnd_problem(rac.rng, inactive=rac.rng.random() < 0.4)
         n_steps = rac.rng.choice([0, 1, 3, 20, 20])
-        mode = rac.rng.choice(["plain", "plain", "broyden", "fail", "enable", "moved-then-disabled"])
+        mode = rac.rng.choice(["plain", "plain", "broyden", "fail", "enable", "moved-then-disabled", "flags-by-other-routes"])
         fail_at = rac.rng.randint(1, 6) if mode in ("fail", "moved-then-disabled") else None
         pre = ()
         if mode == "enable":
@@ -68,6 +68,18 @@ def main():
             # a knob is moved by one step, then disabled; the solve() that follows fails: every knob -- also the one that is now disabled -- and
             # every flag goes back to log row 0
             pre = ("opt.step(1)", f"opt.disable(vary=[{rac.rng.randrange(len(prob['k0']))}])")
+        if mode == "flags-by-other-routes":
+            # a target / knob is switched off, the problem is solved (or fails) once, then flags are switched through the OTHER public routes
+            # (the older enable_all_* / disable_all_* / *_vary / *_targets entry points, assignment to .active): the solve() that follows
+            # must judge the targets that are active NOW
+            it, ik = rac.rng.randrange(len(prob["val"])), rac.rng.randrange(len(prob["k0"]))
+            first = rac.rng.choice([f"opt.disable(target=[{it}])", f"opt.disable(vary=[{ik}])", f"opt.disable_targets(id={it})", f"opt.disable_vary(id={ik})",
+                                    "opt.disable_all_targets()"])
+            back = rac.rng.choice(["opt.enable_all_targets(); opt.enable_all_vary()", f"opt.enable_targets(id={it}); opt.enable_vary(id={ik})",
+                                   "for t in opt.targets: t.active = True\nfor v in opt.vary: v.active = True",
+                                   f"opt.enable_all_targets(); opt.enable_all_vary(); opt.disable_targets(id={it})",
+                                   "opt.enable(target=True); opt.enable(vary=True)"])
+            pre = (first, "try:\n    opt.solve()\nexcept Exception:\n    pass", back)
         try:
             out, det = run_solve(prob, n_steps, fail_at=fail_at, pre=pre, broyden=mode == "broyden")
         except Exception as ex:      # noqa  (problem cannot even be built: e.g. start outside limits)
